@@ -44,7 +44,8 @@ META = {
     ],
     "assumptions": [
         "configurations enumerated (shapes, depths incl. non-power-of-two and 1, 0..2 write ports with "
-        "granularities, comb / sync / transparent read ports, one or two domains)",
+        "granularities, comb / sync / transparent read ports, one or two domains) plus 3 (quick) / 40 (thorough) "
+        "configurations drawn with a fixed seed (up to three clocked domains)",
         "two write ports enabled on the same granule of the same row at the same edge is excluded (a write "
         "conflict the property does not order)",
         "reads beyond the depth are unspecified and excluded",
@@ -70,6 +71,49 @@ def functions():
 
 
 # configuration: (width, signed, depth, write ports [(domain, granularity)], read ports [(domain, transparent idx tuple)])
+class _Lcg:
+    def __init__(self, seed):
+        self.x = seed & 0xFFFFFFFF
+
+    def next(self, n):
+        self.x = (1103515245 * self.x + 12345) & 0x7FFFFFFF
+        return (self.x >> 8) % n
+
+    def pick(self, xs):
+        return xs[self.next(len(xs))]
+
+
+N_GENERATED = {"quick": 3, "thorough": 40}
+_GEN = []
+
+
+def _generated_configs():
+    """port configurations drawn with a fixed seed: width 1..6 (signed or not), depth 1..5, 0..2 write ports (granularity a
+    divisor of the width, domains sync / w), 0..3 read ports (comb / sync / w / r) with a transparency set among the write
+    ports of their own domain"""
+    if _GEN:
+        return _GEN
+    g = _Lcg(11092026)
+    while len(_GEN) < N_GENERATED["thorough"]:
+        sgn = g.next(4) == 0
+        w = g.pick([1, 2, 3, 4, 4, 6])
+        depth = g.pick([1, 2, 3, 3, 4, 5])
+        wps = []
+        for _ in range(g.pick([0, 1, 1, 1, 2, 2])):
+            divs = [d for d in range(1, w + 1) if w % d == 0]
+            wps.append((g.pick(["sync", "sync", "w"]), None if sgn or g.next(3) == 0 else g.pick(divs)))
+        rps = []
+        for _ in range(g.pick([0, 1, 1, 2, 2, 3])):
+            dom = g.pick(["comb", "sync", "sync", "w", "r"])
+            same = [i for i, (d, _g) in enumerate(wps) if d == dom]
+            tr = tuple(i for i in same if g.next(2)) if dom != "comb" else ()
+            rps.append((dom, tr))
+        if not wps and not rps:
+            continue
+        _GEN.append((w, sgn, depth, wps, rps))
+    return _GEN
+
+
 def configs(tier):
     cs = []
     base = [
@@ -92,6 +136,7 @@ def configs(tier):
         (4, False, 5, [("sync", 2)], [("sync", (0,))]),
     ]
     cs += base
+    cs += _generated_configs()[:N_GENERATED["quick" if tier == "quick" else "thorough"]]
     if tier == "thorough":
         cs += [
             (6, False, 4, [("sync", 2), ("sync", 3)], [("sync", (0, 1)), ("sync", (1,)), ("comb", ())]),
